@@ -108,6 +108,11 @@ fn c17_menu_case(oh: usize, ah: bool, ocl: usize, acl: bool) {
 
 /// te: 0 absent, 1 original "chunked", 2 original "Chunked" (mixed case), 3 original "gzip"
 fn c17_menu_case_te(oh: usize, ah: bool, ocl: usize, acl: bool, te: usize) {
+    c17_menu_case_full(oh, ah, ocl, acl, te, false)
+}
+
+/// bad_added_cl: the caller-added Content-Length is "x" instead of "7"
+fn c17_menu_case_full(oh: usize, ah: bool, ocl: usize, acl: bool, te: usize, bad_added_cl: bool) {
     let post: bool = kani::any();
     let skip: bool = kani::any();
     let with_body: bool = kani::any();
@@ -138,7 +143,7 @@ fn c17_menu_case_te(oh: usize, ah: bool, ocl: usize, acl: bool, te: usize) {
         ar.set_header(HOST, HeaderValue::from_static("b.test")).unwrap();
     }
     if acl {
-        ar.set_header(CONTENT_LENGTH, HeaderValue::from_static("7")).unwrap();
+        ar.set_header(CONTENT_LENGTH, HeaderValue::from_static(if bad_added_cl { "x" } else { "7" })).unwrap();
         if ocl == 0 {
             cl_val = 7;
         }
@@ -150,7 +155,7 @@ fn c17_menu_case_te(oh: usize, ah: bool, ocl: usize, acl: bool, te: usize) {
     let n_cl = (ocl > 0) as usize + acl as usize;
     // with a single Host it is non-textual only in original-menu entry 2
     let host_nontext = n_host == 1 && oh == 2;
-    let cl_bad = n_cl == 1 && ocl > 0 && !cl_ok;
+    let cl_bad = n_cl == 1 && ((ocl > 0 && !cl_ok) || (acl && bad_added_cl));
     let has_body = n_cl == 1 || with_body || te_chunked;
     let body_bad = !skip && (post != has_body);
     let expect_err = n_host > 1 || n_cl > 1 || host_nontext || cl_bad || body_bad;
@@ -552,4 +557,11 @@ fn c17_cell_te_mixedcase() {
 #[kani::proof]
 fn c17_cell_te_gzip() {
     c17_menu_case_te(0, false, 0, false, 3);
+}
+
+//@ like: c17_cell_no_headers
+//@ tier: thorough
+#[kani::proof]
+fn c17_cell_te_chunked_with_bad_added_length() {
+    c17_menu_case_full(0, false, 0, true, 1, true);
 }
